@@ -40,13 +40,19 @@ Ops == {"eq", "ne", "refeq", "plus", "pluseq", "elempluseq", "elemself", "ranges
         \* a construct whose sub-expressions / targets reach the container it is working on
         "objdestruct", "objdestructdeep", "destructdeep", "destructswap", "idxcall", "idxcallp", "keycall", "keycallp",
         "idxassigncall", "keyassigncall", "opassigncall", "rangecall", "method", "forbody", "spreadcall",
-        "objlitcall", "destructkey"}
+        "objlitcall", "destructkey",
+        \* the right-hand side / a later operand touches the container the left-hand side selected
+        "assignrhs", "opassignrhs", "propassignrhs", "propopassignrhs", "binoprhs", "eqrhs", "listlitcall", "interpcall",
+        "rangeassignrhs", "declpatrhs", "callee"}
 X == <<120>>
 TF == <<116, 102>>
 \* tf(p): touches p (compares it with itself, reads its type, optionally prints it) and returns r
 Toucher(prints, r) ==
     SFn(TF, <<Nm(<<112>>)>>, FALSE,
-        <<SPrint(EBin("==", Nm(<<112>>), Nm(<<112>>))), SPrint(ECall(ETProp(Nm(<<112>>), N_type), <<>>))>>
+        <<SPrint(EBin("==", Nm(<<112>>), Nm(<<112>>))), SPrint(ECall(ETProp(Nm(<<112>>), N_type), <<>>)),
+          \* (reads the contents: an identity short-cut in == does not)
+          SFor(EVar(N_us), Nm(<<112>>), <<SPrint(I(8))>>),
+          SPrint(EBin("==", EList(<<Nm(<<112>>)>>), EList(<<Nm(<<112>>)>>)))>>
         \o (IF prints THEN <<SPrint(Nm(<<112>>))>> ELSE <<>>)
         \o <<SReturn(r)>>)
 Op(o, x, y) ==
@@ -104,6 +110,24 @@ Op(o, x, y) ==
                                     SDecl(Nm(X), EObj(<<PSpread(x), Pair(ECall(Nm(TF), <<x>>), y), PSpread(y)>>)), SPrint(I(0))>>
       [] o = "destructkey"     -> <<Toucher(FALSE, EStr(KK)),
                                     SDecl(EObj(<<Pair(ECall(Nm(TF), <<x>>), Nm(X))>>), y), SPrint(I(0))>>
+
+      [] o = "assignrhs"       -> <<Toucher(FALSE, I(4)), SAssign(Idx0(x), ECall(Nm(TF), <<y>>)), SPrint(I(0))>>
+      [] o = "opassignrhs"     -> <<Toucher(FALSE, EList(<<I(4)>>)), SOpAssign(Idx0(x), "+", ECall(Nm(TF), <<y>>)), SPrint(I(0))>>
+      [] o = "propassignrhs"   -> <<Toucher(TRUE, I(4)), SAssign(EProp(x, KK), ECall(Nm(TF), <<y>>)), SPrint(I(0))>>
+      [] o = "propopassignrhs" -> <<Toucher(FALSE, EList(<<I(4)>>)), SOpAssign(EIndex(x, EStr(KK)), "+", ECall(Nm(TF), <<y>>)), SPrint(I(0))>>
+      [] o = "binoprhs"        -> <<Toucher(FALSE, I(4)), SDecl(Nm(X), EBin("+", x, EList(<<ECall(Nm(TF), <<y>>)>>))), SPrint(I(0))>>
+      [] o = "eqrhs"           -> <<Toucher(FALSE, I(4)), SPrint(EBin("==", x, EList(<<ECall(Nm(TF), <<y>>)>>)))>>
+      [] o = "listlitcall"     -> <<Toucher(FALSE, I(4)), SDecl(Nm(X), EListOf(<<Spread(x), Item(ECall(Nm(TF), <<y>>)), Spread(y)>>)), SPrint(I(0))>>
+      [] o = "interpcall"      -> <<Toucher(FALSE, EStr(<<115>>)),
+                                    SPrint(EIStr(<<Lit(<<60>>), SlotP(0, ECall(ETProp(x, N_type), <<>>)), Lit(<<45>>),
+                                                   SlotP(0, ECall(Nm(TF), <<y>>)), Lit(<<62>>)>>))>>
+      [] o = "rangeassignrhs"  -> <<Toucher(FALSE, EList(<<I(4)>>)), SAssign(ERIndex(x, I(0), I(1)), ECall(Nm(TF), <<y>>)), SPrint(I(0))>>
+      [] o = "declpatrhs"      -> <<Toucher(FALSE, EList(<<I(4), I(5)>>)),
+                                    SAssign(EPat(<<Idx0(x), EProp(y, KK)>>), ECall(Nm(TF), <<x>>)), SPrint(I(0))>>
+      [] o = "callee"          -> <<Toucher(FALSE, I(0)),
+                                    SAssign(EIndex(x, EStr(<<109>>)), EFunc(<<Nm(<<112>>)>>, FALSE, <<SReturn(Nm(<<112>>))>>)),
+                                    SPrint(ECall(EIndex(x, EStr(<<109>>)), <<ECall(Nm(TF), <<x>>)>>)),
+                                    SPrint(ECall(EIndex(EList(<<ECall(Nm(TF), <<y>>)>>), ECall(Nm(TF), <<x>>)), <<>>))>>
 
 \* zero divisors (and a zero dividend) in every operator form
 ZeroForms == {"plain", "var", "elem", "prop"}
